@@ -89,7 +89,8 @@ ImplSatisfiesD    == ver # None => ver.fails = {}
 ResultConsistent  == ver # None => ver.consistent = {}                      \* C09 on the result of I
 SecondSatisfiesD  == ver2 # None => ver2.fails = {} /\ ver2.consistent = {}
 \* a first result that is not a rejected input for the second call (it is Consistent) is a fixed point
-Idempotent        == ver2 # None => (ver2.rejected \/ ver2.same \/ res2.raised # "")
+\* (R6: not demanded of inputs with a chain of contractible interfaces)
+Idempotent        == ver2 # None => (ver.chain \/ ver2.rejected \/ ver2.same \/ res2.raised # "")
 NoSecondRaise     == ver2 # None => (res2.raised = "" \/ ver2.rejected \/ ver2.kf # {})
 
 Emit == Leaf => PrintT("EJ " \o ToJson([base |-> Base.name, sub |-> sub, k |-> k, ne |-> ne, rse |-> rse,
